@@ -47,6 +47,7 @@ ASSUME = [
     "arrays declared with length 0 are not layouts (rejected as a syntax error since the fix of F21) and are not generated",
     "a gcc failure or timeout on a generated header is counted as inconclusive, never as a violation (loading in C is property C15)",
     "a parse that does not return within 45 s (normal: milliseconds) is interrupted and counted as inconclusive; after three of them a shard stops feeding the compiler",
+    "every type name in pyrtma.parser.supported_types counts as a native type of the quantifier 'all native widths' (that table is the compiler's own statement of what it supports), also names no document lists",
     "with validate_alignment off nothing is claimed by the property; such programs are not part of this check",
 ]
 
@@ -177,6 +178,12 @@ def _judge(p, out, exp, at, trace, res, gcc, only):
                             f"fields, yet the compiler raised AlignmentError: {str(out.exc)[:200]}", trace)
         if out.outcome == "InvalidMessageSize":
             raise Violation("rejected-although-size-le-65535", f"auto_pad {ap}: no definition is larger than 65535 bytes, yet: {str(out.exc)[:200]}", trace)
+        from pyrtma.parser import ParserError
+
+        if not isinstance(out.exc, ParserError):
+            sc = " (uses the native type name 'signed char' of the parser's table of supported types)" if "signed-char" in p.classes or "native-name/signed char" in p.classes else ""
+            raise Violation(f"internal-error/{out.outcome}", f"auto_pad {ap}: a definition closure built from the parser's supported types{sc} ended in an internal "
+                            f"error instead of a layout or a ParserError: {out.outcome}: {str(out.exc)[:300]}", trace)
         raise Violation(f"rejected/{out.outcome}", f"auto_pad {ap}: a definition closure the grammar accepts failed with {out.outcome}: {str(out.exc)[:300]}", trace)
     if exp != "ok":
         lay = G.natural_layout(p, at)
@@ -550,6 +557,31 @@ def exhaustive(idx: int, nshards: int, res: Result):
     res.count("exhaustive/aligned-without-padding", len(aligned))
 
 
+def native_name_table(idx: int, nshards: int, res: Result):
+    """Every type name of the parser's own table of supported native types (pyrtma.parser.supported_types, including spellings no
+    document lists such as ``signed char``) as a scalar after a misaligning byte, as an array element and behind an alias: the
+    definition is a layout like any other (natural alignment = size), auto_pad on and off."""
+    from pyrtma.parser import supported_types
+
+    for i, (name, nt) in enumerate(sorted(supported_types.items())):
+        if i % nshards != idx:
+            continue
+        if name not in G.NATIVES or G.NATIVES[name] != nt.size:
+            raise HarnessError(f"native type {name!r} (size {nt.size}) of the parser's table is unknown to the generator's model")
+        for auto_pad in (True, False):
+            F = G.FieldSpec
+            defs = [G.Def("alias", "NATIVE_ALIAS", "root.yaml", value=name),
+                    G.Def("struct", "NATIVE_REC", "root.yaml", fields=[F("c", "uint8", "uint8"), F("x", name, name), F("y", f"{name}[3]", name, 3, "3"), F("z", "NATIVE_ALIAS", "NATIVE_ALIAS")]),
+                    G.Def("message", "NATIVE_MSG", "root.yaml", id=1234, fields=[F("x", f"{name}[2]", name, 2, "2"), F("r", "NATIVE_REC", "NATIVE_REC")] if auto_pad else [F("x", f"{name}[2]", name, 2, "2")])]
+            if not auto_pad:
+                defs[1].fields = [F("x", name, name), F("z", "NATIVE_ALIAS", "NATIVE_ALIAS")]
+            p = _mk(defs, auto_pad)
+            p.classes.add("native-name/" + name)
+            res.evaluations += 1
+            res.count("native-name-table-cases")
+            _run_collect(p, res)
+
+
 def boundary_table(idx: int, nshards: int, res: Result):
     """Definitions whose declared bytes add up to every total in 65520..65551, for strictest alignment 1/2/4/8, as struct and
     as message, auto_pad on and off: the exact position of the 65535 limit (natural size = total rounded up to the alignment)."""
@@ -583,6 +615,7 @@ def shard(idx: int, nshards: int, seed: int, n_layout: int, n_general: int, gcc_
     res = Result()
     exhaustive(idx, nshards, res)
     boundary_table(idx, nshards, res)
+    native_name_table(idx, nshards, res)
     run_config_matrix(idx, nshards, res)
     if n_cfg:
         rnd = G.RandomChooser(seed + 7)
@@ -607,7 +640,7 @@ def shard(idx: int, nshards: int, seed: int, n_layout: int, n_general: int, gcc_
     hyp_run(sb.body(body), sb.wrap(G.layout_programs()), seed, n_layout, res)
     sb = G.ShrinkBudget(15)
     hyp_run(sb.body(body), sb.wrap(G.programs(validate_alignment=True, import_coredefs=False, max_files=4,
-                                             allow=("alias-of-imported-struct", "alias-of-imported-struct-field", "struct-contains-message"))), seed + 1, n_general, res)
+                                             allow=("alias-of-imported-struct", "alias-of-imported-struct-field", "struct-contains-message", "signed-char"))), seed + 1, n_general, res)
     return res
 
 
